@@ -74,11 +74,17 @@ Fixpoint enum_pattern_ok (bound : pattern) (t : tuple) : bool :=
   | PV _ :: b', _ :: t' => enum_pattern_ok b' t'
   | _, _ => true
   end.
-Fixpoint enum_new_binds (bound : pattern) (t : tuple) (acc : subst) : subst :=
+(* bindings of the pattern's unbound positions; a variable that occurs twice must see equal
+   values (the candidate is dropped otherwise), as in find_matching_tuples *)
+Fixpoint enum_new_binds (bound : pattern) (t : tuple) (acc : subst) : option subst :=
   match bound, t with
-  | PV y :: b', x :: t' => enum_new_binds b' t' ((y, x) :: acc)
+  | PV y :: b', x :: t' =>
+      match lookup acc y with
+      | Some z => if value_eqb z x then enum_new_binds b' t' acc else None
+      | None => enum_new_binds b' t' ((y, x) :: acc)
+      end
   | _ :: b', _ :: t' => enum_new_binds b' t' acc
-  | _, _ => acc
+  | _, _ => Some acc
   end.
 
 (* states of prove_body: bindings and children so far *)
@@ -116,7 +122,9 @@ Section Chain.
     | (Some sts, tb') =>
         (cands ++ flat_map (fun st : pstate =>
            match atom_tuple (fst st) (chead c) with
-           | Some tu => if enum_pattern_ok bound tu then [(tu, enum_new_binds bound tu [])] else []
+           | Some tu => if enum_pattern_ok bound tu
+                        then match enum_new_binds bound tu [] with Some nb => [(tu, nb)] | None => [] end
+                        else []
            | None => []
            end) sts, tb')
     | (None, tb') => (cands, tb')
